@@ -79,6 +79,14 @@ from concurrent.futures.process import BrokenProcessPool as _BPPException
 from multiprocessing.connection import wait
 
 from ._base import Future
+
+if os.environ.get("JOBLIB_VERIF_HOOKS"):
+    from ..._verif_hooks import point as _verif_point
+else:
+
+    def _verif_point(name, **ctx):
+        pass
+
 from .backend import get_context
 from .backend.context import cpu_count, _MAX_WINDOWS_WORKERS
 from .backend.queues import Queue, SimpleQueue
@@ -450,9 +458,12 @@ def _process_worker(
 
     while True:
         try:
+            _verif_point("worker.before_get", pid=pid)
             call_item = call_queue.get(block=True, timeout=timeout)
             if call_item is None:
                 mp.util.info("Shutting down worker on sentinel")
+            else:
+                _verif_point("worker.after_get", pid=pid)
         except queue.Empty:
             mp.util.info(f"Shutting down worker after timeout {timeout:0.3f}s")
             if processes_management_lock.acquire(block=False):
@@ -492,7 +503,9 @@ def _process_worker(
             exc = _ExceptionWithTraceback(e)
             result_queue.put(_ResultItem(call_item.work_id, exception=exc))
         else:
+            _verif_point("worker.after_run", pid=pid)
             _sendback_result(result_queue, call_item.work_id, result=r)
+            _verif_point("worker.after_send", pid=pid)
             del r
 
         # Free the resource as soon as possible, to avoid holding onto
@@ -678,7 +691,9 @@ class _ExecutorManagerThread(threading.Thread):
         wakeup_reader = self.thread_wakeup._reader
         readers = [result_reader, wakeup_reader]
         worker_sentinels = [p.sentinel for p in list(self.processes.values())]
+        _verif_point("manager.before_wait", manager=self)
         ready = wait(readers + worker_sentinels)
+        _verif_point("manager.after_wait", manager=self, ready=ready)
 
         bpe = None
         is_broken = True
